@@ -19,7 +19,33 @@ import (
 	"github.com/btcsuite/btcd/wire/v2"
 )
 
-var btcNet = wire.SimNet
+// netOf returns the chain parameters (nil: none given, the peer falls back to
+// testnet3) and the magic of a scenario's network.
+func netOf(name string) (*chaincfg.Params, wire.BitcoinNet) {
+	switch name {
+	case "main":
+		p := chaincfg.MainNetParams
+		return &p, wire.MainNet
+	case "test3":
+		p := chaincfg.TestNet3Params
+		return &p, wire.TestNet3
+	case "nil":
+		return nil, wire.TestNet3
+	case "regtest":
+		p := chaincfg.RegressionNetParams
+		return &p, wire.TestNet
+	}
+	p := chaincfg.SimNetParams
+	return &p, wire.SimNet
+}
+
+// otherNet is a magic of a different network.
+func otherNet(n wire.BitcoinNet) wire.BitcoinNet {
+	if n == wire.MainNet {
+		return wire.TestNet3
+	}
+	return wire.MainNet
+}
 
 func rawMessage(magic wire.BitcoinNet, cmd string, payload []byte, badChecksum bool) []byte {
 	var b bytes.Buffer
@@ -39,7 +65,7 @@ func rawMessage(magic wire.BitcoinNet, cmd string, payload []byte, badChecksum b
 
 // encodeRemote concretises one script message as wire bytes.  pver is the
 // protocol version the peer will decode it with.
-func encodeRemote(m RMsg, pver uint32, nonce uint64) ([]byte, error) {
+func encodeRemote(btcNet wire.BitcoinNet, m RMsg, pver uint32, nonce uint64) ([]byte, error) {
 	var msg wire.Message
 	switch m.K {
 	case "ver":
@@ -64,7 +90,7 @@ func encodeRemote(m RMsg, pver uint32, nonce uint64) ([]byte, error) {
 	case "malformed":
 		return rawMessage(btcNet, wire.CmdVerAck, nil, true), nil
 	case "wrongmagic":
-		return rawMessage(wire.MainNet, wire.CmdVerAck, nil, false), nil
+		return rawMessage(otherNet(btcNet), wire.CmdVerAck, nil, false), nil
 	default:
 		return nil, fmt.Errorf("unknown script message kind %q", m.K)
 	}
@@ -352,10 +378,17 @@ func (d *driver) listeners() btcpeer.MessageListeners {
 	}
 }
 
+func remoteIP(sc *Scenario) string {
+	if sc.Loop {
+		return "127.0.0.1"
+	}
+	return "10.0.0.2"
+}
+
 func newPeer(sc *Scenario, l btcpeer.MessageListeners) (*btcpeer.Peer, error) {
-	params := chaincfg.SimNetParams
+	params, _ := netOf(sc.Net)
 	cfg := &btcpeer.Config{
-		ChainParams:      &params,
+		ChainParams:      params,
 		ProtocolVersion:  uint32(sc.LPV),
 		UserAgentName:    "verifpeer",
 		UserAgentVersion: "1.0.0",
@@ -365,26 +398,26 @@ func newPeer(sc *Scenario, l btcpeer.MessageListeners) (*btcpeer.Peer, error) {
 	if sc.Dir == "in" {
 		return btcpeer.NewInboundPeer(cfg), nil
 	}
-	return btcpeer.NewOutboundPeer(cfg, "10.0.0.2:18555")
+	return btcpeer.NewOutboundPeer(cfg, remoteIP(sc)+":18555")
 }
 
-func newConn(r *recorder) *memConn {
+func newConn(r *recorder, sc *Scenario) *memConn {
 	return &memConn{r: r,
 		laddr: &net.TCPAddr{IP: net.ParseIP("10.0.0.1"), Port: 18555},
-		raddr: &net.TCPAddr{IP: net.ParseIP("10.0.0.2"), Port: 18555}}
+		raddr: &net.TCPAddr{IP: net.ParseIP(remoteIP(sc)), Port: 18555}}
 }
 
 // selfNonce returns a nonce this process has recently put into a version
 // message (peer.sentNonces), obtained from a throw-away outbound peer.
 func selfNonce() (uint64, error) {
-	sc := &Scenario{Dir: "out", LPV: int(wire.ProtocolVersion)}
+	sc := &Scenario{Dir: "out", LPV: int(wire.ProtocolVersion), Net: "sim"}
 	p, err := newPeer(sc, btcpeer.MessageListeners{})
 	if err != nil {
 		return 0, err
 	}
-	r := newRecorder(btcNet)
+	r := newRecorder(wire.SimNet)
 	r.silent = true
-	p.AssociateConnection(newConn(r))
+	p.AssociateConnection(newConn(r, sc))
 	ok := r.waitFor(5*time.Second, func() bool { return r.haveVersion })
 	r.mu.Lock()
 	nonce := r.versionNonce
@@ -405,6 +438,7 @@ func RunScenario(sc Scenario) (tr *Trace) {
 		tr.Err = fmt.Sprintf(f, a...)
 		return tr
 	}
+	_, btcNet := netOf(sc.Net)
 	d := &driver{sc: sc, rec: newRecorder(btcNet), rng: rand.New(rand.NewSource(sc.Steer.Jitter)),
 		stop: make(chan struct{}), stallArmed: make(chan struct{})}
 	rec := d.rec
@@ -480,7 +514,7 @@ func RunScenario(sc Scenario) (tr *Trace) {
 		}(m)
 	}
 
-	p.AssociateConnection(newConn(rec))
+	p.AssociateConnection(newConn(rec, &sc))
 
 	var actors sync.WaitGroup
 	var sendersWG sync.WaitGroup
@@ -542,7 +576,7 @@ func RunScenario(sc Scenario) (tr *Trace) {
 					}
 				}
 			}
-			raw, err := encodeRemote(*m, pver, nonce)
+			raw, err := encodeRemote(btcNet, *m, pver, nonce)
 			if err != nil {
 				rec.log(Event{E: "harness-error", B: err.Error()})
 				return
